@@ -2,6 +2,9 @@ package props
 
 import (
 	"fmt"
+	"path/filepath"
+
+	"github.com/cockroachdb/errors"
 
 	"verif/mc/core"
 	"verif/mc/tm"
@@ -24,15 +27,35 @@ func runC11(c *core.Ctx, r *core.Result) {
 		var annotated bool
 		ok := report(r, t, map[string]interface{}{"hops": hops}, func(t *tm.Term) string {
 			return guarded("C11", func() string {
-				e := t.Build()
-				v0 := tm.Annotations(e)
-				annotated = hasAnnotation(v0)
-				cur := e
-				for k := 1; k <= hops; k++ {
-					cur, _ = tm.HopK(cur)
-					vk := tm.Annotations(cur)
-					if d := v0.Diff(vk); d != "" {
-						return fail(fmt.Sprintf("hop%d:%s", min(k, 2), stripIdx(v0.FirstKey(vk))), "accessor vector differs after %d hop(s): %s", k, short(d))
+				builds := []struct {
+					name string
+					e    error
+				}{{"", t.Build()}}
+				if t.Depth() <= 2 {
+					// the same term built under 40 extra call frames: captured
+					// stacks exceed the library's capture buffer
+					builds = append(builds, struct {
+						name string
+						e    error
+					}{"deep:", t.BuildDeep(40)})
+				}
+				for _, b := range builds {
+					e := b.e
+					v0 := tm.Annotations(e)
+					annotated = hasAnnotation(v0)
+					if f := checkOneLine(e); f != "" {
+						return fail(b.name+"oneline:local", "%s", f)
+					}
+					cur := e
+					for k := 1; k <= hops; k++ {
+						cur, _ = tm.HopK(cur)
+						vk := tm.Annotations(cur)
+						if d := v0.Diff(vk); d != "" {
+							return fail(fmt.Sprintf("%shop%d:%s", b.name, min(k, 2), stripIdx(v0.FirstKey(vk))), "accessor vector differs after %d hop(s): %s", k, short(d))
+						}
+						if f := checkOneLine(cur); f != "" {
+							return fail(fmt.Sprintf("%soneline:hop%d", b.name, min(k, 2)), "%s", f)
+						}
 					}
 				}
 				return ""
@@ -93,4 +116,29 @@ func hasAnnotation(v tm.Vec) bool {
 		}
 	}
 	return false
+}
+
+// checkOneLine decides "GetOneLineSource reports file, line and function
+// of the topmost caller of the innermost recorded stack" against an
+// independent walk: the deepest node of the single-cause chain that has
+// a reportable stack, and the last (innermost-caller) frame of it.
+func checkOneLine(e error) string {
+	var inner *errors.ReportableStackTrace
+	for c := e; c != nil; c = errors.UnwrapOnce(c) {
+		if st := errors.GetReportableStackTrace(c); st != nil && len(st.Frames) > 0 {
+			inner = st
+		}
+	}
+	file, line, fn, ok := errors.GetOneLineSource(e)
+	if inner == nil {
+		if ok {
+			return fmt.Sprintf("GetOneLineSource reports %s:%d:%s but no layer of the cause chain has a stack", file, line, fn)
+		}
+		return ""
+	}
+	f := inner.Frames[len(inner.Frames)-1]
+	if !ok || file != filepath.Base(f.AbsPath) || line != f.Lineno || fn != f.Function {
+		return fmt.Sprintf("GetOneLineSource = (%s, %d, %s, %v) but the innermost stack's first frame is (%s, %d, %s)", file, line, fn, ok, filepath.Base(f.AbsPath), f.Lineno, f.Function)
+	}
+	return ""
 }
